@@ -978,7 +978,7 @@ TARGETS = {
                                            '_NegValuesTranslator', '_NegValuesTranslator._tr', 'translate_neg_to_non_neg')] + [
         (_LN + 'transformers', '_SingleRangeSourceConstructor'), (_LN + 'transformers', 'MultipleLineRangesTransformer'),
         (_LN + 'transformers', 'MultipleLineRangesTransformer._model_for_non_negatives')]),
-    'Interval': dict(prop='C13', world=[_IV + 'int_interval', _IV + 'w_inversion.interval', _IV + 'w_inversion.intervals'], roots=[
+    'Interval': dict(prop='C13 C06', world=[_IV + 'int_interval', _IV + 'w_inversion.interval', _IV + 'w_inversion.intervals'], roots=[
         (_IV + 'int_interval', q) for q in ('Empty', 'NonEmpty', 'unlimited', 'lower_limit', 'upper_limit', 'finite', 'point')] + [
         (_IV + 'w_inversion.intervals', q) for q in ('Empty', 'UpperLimit', 'LowerLimit', 'Finite', 'Unlimited', 'WithCustomInversion',
                                                       'point', 'unlimited_with_unlimited_inversion', 'unlimited_with_finite_inversion')] + [
